@@ -93,6 +93,37 @@ func lengthGrid(fns []string) []caseH2C {
 			}
 		}
 	}
+	// DST lengths around multiples of 2^16 (length fields are 1 and 2 bytes wide), and pre-image lengths around powers of two
+	// (b0 = H(Z_pad(64) || msg || l_i_b(2) || 0 || DST || len(DST))): fixed-size buffers and their fast paths end there
+	mk := func(fn string, ml, dl int) {
+		dst := make([]byte, dl)
+		for i := range dst {
+			dst[i] = byte(i*13 + dl)
+		}
+		msg := make([]byte, ml)
+		for i := range msg {
+			msg[i] = byte(i*7 + ml)
+		}
+		out = append(out, caseH2C{Fn: fn, Msg: hex.EncodeToString(msg), Dst: hex.EncodeToString(dst), Grid: true})
+	}
+	for _, fn := range fns {
+		for _, dl := range []int{65535, 65536, 65537, 65791, 65792, 131072, 131073} {
+			mk(fn, 3, dl)
+		}
+		for _, b := range []int{128, 256, 512, 1024, 2048, 4096, 8192} {
+			for _, dl := range []int{1, 16, 49, 255, 300} {
+				eff := dl
+				if dl > 255 {
+					eff = 32
+				}
+				for d := -3; d <= 3; d++ {
+					if ml := b + d - (64 + 2 + 1 + eff + 1); ml >= 0 {
+						mk(fn, ml, dl)
+					}
+				}
+			}
+		}
+	}
 	return out
 }
 
